@@ -296,6 +296,9 @@ func doWrite(c *mon.Ctx, k, tail, failW, ad int, r *gen.Rand) {
 	s := &sink{failAt: failW, failCnt: []int{0, 0, 100, 188}[r.Intn(4)]}
 	if r.Chance(3) {
 		s.failErr = tempErr{} // a temporary failure is a failure all the same: reported, nothing retried
+	} else if r.Chance(4) {
+		// the packet writer's error is its own business; it may be a value that means something else to readers
+		s.failErr = []error{io.EOF, io.ErrUnexpectedEOF, io.ErrShortWrite, gots.ErrInvalidPacketLength}[r.Intn(4)]
 	}
 	w, aname := adapter(ad, s)
 	n, err := w.Write(data)
@@ -513,7 +516,11 @@ func doReadFrom(c *mon.Ctx, k, tail, failW, failR, rk, ad int, r *gen.Rand) {
 	if n != int64(exp*188) && !(same(expErr, s.werr()) && n == int64(exp*188+s.failCnt)) {
 		c.Fail("ReadFrom:count", fmt.Sprintf("ReadFrom delivered %d packets but returned n=%d", exp, n), wt)
 	}
-	if !same(err, expErr) {
+	if failW >= 0 && failW < avail/188 && err != nil && !same(err, expErr) {
+		// the statement names the error for Write only; for ReadFrom a failing packet write must stop the
+		// delivery (checked above) and be reported, as the sink's error or wrapped in another
+		c.Count("readfrom.writer_failure_reported_as_another_error")
+	} else if !same(err, expErr) {
 		sig := "ReadFrom:error"
 		switch {
 		case same(expErr, rerr):
